@@ -179,6 +179,34 @@ def render : Resp → String
   | .parts items => "ok:" ++ ",".intercalate (items.map fun (n, sz) => s!"{n}={sz}")
   | .completed e => "ok:" ++ optHexEncode e
 
+/-- HTTP status of an error code (`S3ErrorCode::status_code`) for the codes a read can answer -/
+def errStatus : Err → Nat
+  | .InvalidRange => 416
+  | .NoSuchKey => 404 | .NoSuchBucket => 404 | .NoSuchUpload => 404
+  | .InternalError => 500
+  | .AccessDenied => 403
+  | .BucketAlreadyExists => 409 | .BucketNotEmpty => 409
+  | _ => 400
+
+/-- ranged reads of plain keys are repeated by the harness through `S3Service::call`; this is what the HTTP layer
+    must show for an answer: status (206 exactly when `Content-Range` is present), `Content-Range`, `Content-Length`, body -/
+def viaHttp : Op → Bool
+  | .getObject _ k (some r) =>
+    keyOk k && (match keyPath k with
+      | some p => joinWith [slash] p == k
+      | none => false) && r != .suffix 18446744073709551615
+  | _ => false
+
+def httpPart (r : Resp) : String :=
+  match r with
+  | .get body cl cr _ _ _ => s!":H{StoreSpec.status r}:{optHexEncode cr}:{cl}:{bodyStr body}"
+  | .err e => s!":H{errStatus e}"
+  | _ => ":H?"
+
+/-- canonical text of an answer to `op` -/
+def renderFor (op : Op) (r : Resp) : String :=
+  render r ++ (if viaHttp op then httpPart r else "")
+
 /-- implementation text with the members the model does not predict removed -/
 def implCanon (op : Op) (out : String) : String :=
   match op with
@@ -435,6 +463,19 @@ def retaint (tn : Taints) (st : State) (op : Op) (spBefore spAfter absAfter : St
       { tn with up := alInsert id "fs:failed-complete-consumes-upload" tn.up }
     else tn) tn
 
+/-- `a` is a directory prefix of `b` -/
+def dirPrefix (a b : Bytes) : Bool := (a ++ [slash]).isPrefixOf b
+
+/-- the request would make one object a directory prefix of another: outside the property's domain -/
+def outsideDomain (sp : Store) (op : Op) : Bool :=
+  let clash (b k : Bytes) : Bool :=
+    ((sp.bucket b).getD []).any fun e => e.1 ≠ k && (dirPrefix e.1 k || dirPrefix k e.1)
+  match op with
+  | .putObject b k .. => clash b k
+  | .copyObject _ _ db dk => clash db dk
+  | .completeMultipartUpload _ b k .. => clash b k
+  | _ => false
+
 structure Acc where
   st : State := {}
   sp : Store := {}
@@ -445,6 +486,11 @@ structure Acc where
   okOps : Nat := 0
   errOps : Nat := 0
   fails : List (Nat × Nat × String) := []   -- (priority, step, class), latest first
+  sawComplete : Bool := false
+  sawCopy : Bool := false
+  sawRanged : Bool := false
+  sawList : Bool := false
+  skipped : Nat := 0
 
 def replay (dirLen : Nat) (ops : List Op) (outs : List String) : Acc :=
   (ops.zip outs).foldl (fun (a : Acc) (op, out) =>
@@ -455,22 +501,31 @@ def replay (dirLen : Nat) (ops : List Op) (outs : List String) : Acc :=
       match r with
       | .unmodelled => { a with unm := true, k := k, bad := some s!"step {k} {opName op}" }
       | _ =>
-        let m := render r
+        let m := renderFor op r
         let i := implCanon op out
         let a := { a with k := k,
                           okOps := a.okOps + (if m.startsWith "ok" then 1 else 0),
                           errOps := a.errOps + (if m.startsWith "ok" then 0 else 1) }
+        let a := match r with
+          | .completed _ => { a with sawComplete := true }
+          | .copied _ => { a with sawCopy := true }
+          | .get _ _ (some _) _ _ _ => { a with sawRanged := true }
+          | .listed (_ :: _) _ _ _ => { a with sawList := true }
+          | _ => a
         if m ≠ i then { a with bad := some s!"step {k} {opName op}: model={m} impl={i}" }
+        else if outsideDomain a.sp op then
+          -- not judged; the judging store follows the backend
+          { a with st := s1, sp := abs s1, tn := {}, skipped := a.skipped + 1 }
         else
           -- the model's structured answer equals the implementation's: judge it against the store
           let (p1, e) := StoreSpec.step hashes a.sp op
           let partsUnordered := match op with
             | .listParts .. => out.endsWith ":0"
             | _ => false
-          if render e ≠ i then
+          if renderFor op e ≠ i then
             let (prio, cls) := classify a.st a.sp a.tn op e r
             { a with st := s1, sp := abs s1, tn := {},
-                     fails := (prio, k, cls ++ s!" [{opName op} expected {((render e).take 60).toString} got {(i.take 60).toString}]") :: a.fails }
+                     fails := (prio, k, cls ++ s!" [{opName op} expected {((renderFor op e).take 60).toString} got {(i.take 60).toString}]") :: a.fails }
           else
             let a := if partsUnordered then
                 { a with fails := (2, k, "fs:list-parts-unordered [parts not in ascending order]") :: a.fails }
@@ -495,7 +550,14 @@ def judge (fs : List String) : String :=
             | some d => s!"{id}\tDISAGREE\t\t{d}"
             | none =>
               match a.fails.reverse with
-              | [] => agree id (mode ++ (if a.errOps * 2 > a.okOps then "-errors" else ""))
+              | [] =>
+                let tag := if a.errOps * 2 > a.okOps then "errors"
+                  else if a.sawComplete then "multipart"
+                  else if a.sawCopy then "copy"
+                  else if a.sawRanged then "ranged"
+                  else if a.sawList then "listing"
+                  else "basic"
+                agree id (mode ++ "-" ++ tag)
               | f :: fsl =>
                 let best := fsl.foldl (fun (b : Nat × Nat × String) x => if x.1 > b.1 then x else b) f
                 let all := "; ".intercalate ((f :: fsl).map fun (_, k, c) => s!"{k}:{c}")
